@@ -22,6 +22,8 @@ CHECK = {
     "parts": [
         {"name": "steps", "harness": "c01_energy", "flavour": "rel",
          "shards": {"quick": 16, "thorough": 16}, "deadline": {"quick": 100, "thorough": 1200}},
+        {"name": "steps-rng", "harness": "c01_energy", "flavour": "rel",
+         "shards": {"quick": 16, "thorough": 16}, "deadline": {"quick": 100, "thorough": 900}},
     ],
 }
 META = {
